@@ -487,6 +487,10 @@ func shortName(n string) string {
 func (f *Frame) applyContract(x ssa.Instruction, con *Contract, fn *ssa.Function, sig *types.Signature, name string, args []*Val, fvs []*Val, at string, st *State) *Val {
 	vc := f.vc
 	env := &specEnv{vc: vc, names: map[string]*specBinding{}, allocPre: st.alloc}
+	if f.selfVal != "" {
+		env.names["self"] = &specBinding{V: ghost(f.selfVal, "Int")}
+		f.selfVal = ""
+	}
 	if fn != nil && fn.Pkg != nil && vc.P.Module[fn.Pkg.Pkg] {
 		env.pkg = fn.Pkg.Pkg
 	} else {
@@ -628,6 +632,16 @@ func (f *Frame) applyContract(x ssa.Instruction, con *Contract, fn *ssa.Function
 		}
 		vc.assume(at, t, "ensures of "+name+" ("+cl.Label+")")
 	}
+	// "defines" clauses name the callee's results with specification functions
+	// (e.g. determinism of a key source); they are assumptions, never obligations
+	for _, cl := range con.Defines {
+		t, err := post.trBool(cl.Expr)
+		if err != nil {
+			panic(unsupported{fmt.Sprintf("contract of %s: defines %s: %v", name, cl.Src, err)})
+		}
+		vc.assume(at, t, "defines of "+name)
+		vc.usedAssumptions["assumed of values of "+name+": "+cl.Src] = true
+	}
 	switch nres {
 	case 0:
 		return &Val{}
@@ -695,6 +709,8 @@ func (f *Frame) callDynamic(x ssa.CallInstruction, c *ssa.CallCommon, fv *Val, a
 	f.safe("nilfunc", x, at, not(eq(fv.T, "0")))
 	if con, ok := vc.SS.FuncTypes[tn]; ok {
 		vc.usedAssumptions["function values of type "+tn+" satisfy the declared functype contract"] = true
+		f.selfVal = fv.T // "self" in a functype contract: the function value being called
+		defer func() { f.selfVal = "" }()
 		return f.applyContract(x, con, nil, sig, tn, args, nil, at, st)
 	}
 	vc.note("call through function value of type " + c.Value.Type().String() + ": everything on the heap is unknown afterwards")
